@@ -192,6 +192,12 @@ Definition S_ex : lschema := mkLS
              mkLF [x6d] 14 Optional (RPath 0) (Some (LConst 1))] false false ]                    (* 4: Dflt *)
   [ (RFastStr, LString [x68; x5c; x6e; x69]); (RPath 0, LMember 0 2) ].
 
+(* an enum-typed const used as a number: `(K.inner() as i32)` *)
+Example enum_const_at_int :
+  well_typed_lit pf0 S_ex (erase RI32) (LConst 1) = true /\ pclass_top S_ex (LConst 1) (item_cty RI32) = None /\
+  default_val_lit pf0 S_ex RI32 (LConst 1) = LOk (GI32 5, true) /\ lit_value_top pf0 S_ex TyI32 (LConst 1) = Some (GI32 5).
+Proof. vm_compute. repeat split; reflexivity. Qed.
+
 Example literal_meaning_nonvacuous :
   class_free_schema S_ex = true /\ lits_typed pf0 S_ex = true /\
   default_of (proj pf0 S_ex) (TyRef 4) =
